@@ -198,13 +198,18 @@ def double_reset():
             len(out["unclosed"]) <= 1}
 
 
+def _drain_targeted():
+    from replay.more_scenarios import drain_scenarios
+    return drain_scenarios()
+
+
 def _connect_errors():
     from replay.more_scenarios import connect_error_scenarios
     return connect_error_scenarios()[0]
 
 
 LIBRARY = {
-    "drain": [drain_exception_escape, drain_resumes_disconnected],
+    "drain": [drain_exception_escape, drain_resumes_disconnected, _drain_targeted],
     "connect": [connect_after_close, close_while_connecting, double_reset, connect_wedged_by_unencodable, _connect_errors],
 }
 
